@@ -1,6 +1,12 @@
 package main
 
 import (
+	"fmt"
+	"go/ast"
+	"go/constant"
+	"go/token"
+	"go/types"
+
 	"golang.org/x/tools/go/ssa"
 )
 
@@ -57,6 +63,354 @@ func runC06(c *Ctx) {
 	}
 	rulePairs(c, p, "C06.R1")
 	c06R2(c, p)
+	c06R3(c, p)
+	c06R4(c, p)
+	if c.Tier == "thorough" {
+		if sp := c.need("spsa"); sp != nil {
+			c06R5(c, p, sp)
+			rulePairs(c, sp, "C06.R1[spsa]")
+		}
+		c.Use(p)
+	}
+}
+
+// C06.R3: the result `move` of iterativeDeepen is assigned only from the PV
+// (C07.R3 checks when) or, on the abort path, from a generated move that passed
+// the legality filter; both generator halves feed that fallback.
+func c06R3(c *Ctx, p *Prog) {
+	const rule = "C06.R3"
+	fn := p.Func("search.(*Search).iterativeDeepen")
+	if fn == nil {
+		c.Anchor(rule, "search.(*Search).iterativeDeepen")
+		return
+	}
+	var mv *ssa.Alloc
+	for _, l := range fn.Locals {
+		if l.Comment == "move" {
+			mv = l
+		}
+	}
+	if mv == nil {
+		c.Undec(rule, "iterativeDeepen#result", fn.Pos(), "named result `move` not found")
+		return
+	}
+	nFallback := 0
+	for _, r := range *mv.Referrers() {
+		st, ok := r.(*ssa.Store)
+		if !ok || st.Addr != ssa.Value(mv) {
+			continue
+		}
+		if k, isc := constOf(st.Val); isc && k == 0 {
+			continue
+		}
+		if moveOrigin(st.Val, []string{"search.(*pv).active"}, map[ssa.Value]bool{}, 0) == nil {
+			c.Ok(rule, "iterativeDeepen#result-from-pv", st.Pos(), "result move taken from the principal variation")
+			continue
+		}
+		if bad := moveOrigin(st.Val, []string{"move.(*Store).Frame"}, map[ssa.Value]bool{}, 0); bad != nil {
+			c.Fail(rule, "iterativeDeepen#result-origin", st.Pos(), "the returned move can come from %s, which is neither the PV nor a generated move", bad.Name())
+			continue
+		}
+		nFallback++
+		// the fallback adoption lies on the not-in-check edge of a legality branch of a make of the same move
+		okLegal := false
+		for _, mk := range callsIn(fn, "board.(*Board).MakeMove") {
+			if !sameValue(mk.Common().Args[1], st.Val, 0) {
+				continue
+			}
+			lb, _ := findLegalityBranch(fn, mk)
+			if lb != nil && len(lb.LegalTo.Preds) == 1 && (lb.LegalTo == st.Block() || lb.LegalTo.Dominates(st.Block())) {
+				okLegal = true
+			}
+		}
+		c.Check(okLegal, rule, "iterativeDeepen#fallback-legal", st.Pos(), "on abort without a completed iteration the adopted move was made and found not to leave the mover in check")
+		// reached only under abort && move == 0
+		facts := controllingConds(st.Block())
+		var underAbort, underNoMove bool
+		for _, ce := range facts {
+			if call, ok := ce.Cond.(*ssa.Call); ok && ce.True && objName(calleeObj(call)) == "search.(*Search).abort" {
+				underAbort = true
+			}
+			if bo, ok := ce.Cond.(*ssa.BinOp); ok {
+				if l, ok := stripConv(bo.X).(*ssa.UnOp); ok && l.Op == token.MUL && l.X == ssa.Value(mv) {
+					if k, isc := constOf(bo.Y); isc && k == 0 && ((bo.Op == token.EQL && ce.True) || (bo.Op == token.NEQ && !ce.True)) {
+						underNoMove = true
+					}
+				}
+			}
+		}
+		c.Check(underAbort && underNoMove, rule, "iterativeDeepen#fallback-only-without-result", st.Pos(), "the fallback replaces the result only after an abort and only while no iteration has produced a move")
+	}
+	c.Floor(rule, nFallback, 1, "fallback adoptions")
+	// the fallback exists on the abort path: a return reachable from abort()==true must be preceded by the fallback when move == 0
+	a, b := callsIn(fn, "movegen.GenNoisy"), callsIn(fn, "movegen.GenNotNoisy")
+	c.Check(len(a) == 1 && len(b) == 1, rule, "iterativeDeepen#fallback-generates-all", fn.Pos(), "the fallback generates both the noisy and the quiet half (a position whose only legal moves are quiet still gets a move)")
+}
+
+// C06.R4: integers parsed from external text are range-checked before a narrowing conversion.
+func c06R4(c *Ctx, p *Prog) {
+	const rule = "C06.R4"
+	// functions returning strconv results (wrappers like parseInt)
+	tainted := map[*ssa.Function]bool{}
+	isStrconv := func(v ssa.Value) bool {
+		ex, ok := v.(*ssa.Extract)
+		if !ok {
+			return false
+		}
+		call, ok := ex.Tuple.(*ssa.Call)
+		if !ok {
+			return false
+		}
+		f := calleeObj(call)
+		return f != nil && f.Pkg() != nil && f.Pkg().Path() == "strconv" && (f.Name() == "Atoi" || f.Name() == "ParseInt" || f.Name() == "ParseUint")
+	}
+	var fromText func(v ssa.Value, depth int) bool
+	fromText = func(v ssa.Value, depth int) bool {
+		if depth > 6 {
+			return false
+		}
+		for x := range backSlice(v, sliceOpts{ThroughCalls: true, Stop: func(s ssa.Value) bool {
+			// only value-preserving helpers are followed through their arguments
+			if call, ok := s.(*ssa.Call); ok {
+				if bi, ok := call.Call.Value.(*ssa.Builtin); ok && (bi.Name() == "min" || bi.Name() == "max") {
+					return false
+				}
+				if objName(calleeObj(call)) == "chess.Clamp" {
+					return false
+				}
+				return true
+			}
+			return false
+		}}) {
+			if isStrconv(x) {
+				return true
+			}
+			if call, ok := x.(*ssa.Call); ok {
+				if callee := call.Call.StaticCallee(); callee != nil && tainted[callee] {
+					return true
+				}
+			}
+		}
+		return false
+	}
+	for round := 0; round < 3; round++ {
+		for _, fn := range p.OwnFuncs() {
+			if tainted[fn] {
+				continue
+			}
+			allInstrs(fn, func(in ssa.Instruction) {
+				if ret, ok := in.(*ssa.Return); ok {
+					for _, r := range ret.Results {
+						if fromText(r, 0) {
+							tainted[fn] = true
+						}
+					}
+				}
+			})
+		}
+	}
+	n := 0
+	for _, fn := range p.OwnFuncs() {
+		pkg := relPkg(fnPkgPath(fn))
+		if pkg != "uci" && pkg != "main" {
+			continue
+		}
+		ord := 0
+		allInstrs(fn, func(in ssa.Instruction) {
+			cv, ok := in.(*ssa.Convert)
+			if !ok {
+				return
+			}
+			src, ok1 := cv.X.Type().Underlying().(*types.Basic)
+			dst, ok2 := cv.Type().Underlying().(*types.Basic)
+			if !ok1 || !ok2 || src.Info()&types.IsInteger == 0 || dst.Info()&types.IsInteger == 0 {
+				return
+			}
+			sz := types.SizesFor("gc", "amd64")
+			if sz.Sizeof(dst) >= sz.Sizeof(src) {
+				return
+			}
+			if !fromText(cv.X, 0) {
+				return
+			}
+			n++
+			ord++
+			key := fmt.Sprintf("%s#narrowing@%d->%s", fnName(fn), ord, types.TypeString(cv.Type(), func(*types.Package) string { return "" }))
+			// dominated by both-sided bounds on the operand
+			lo, hi := false, false
+			max := int64(1)<<(uint(sz.Sizeof(dst))*8-1) - 1
+			min := -max - 1
+			if dst.Info()&types.IsUnsigned != 0 {
+				max, min = int64(1)<<(uint(sz.Sizeof(dst))*8)-1, 0
+			}
+			for _, ce := range controllingConds(cv.Block()) {
+				bo, ok := ce.Cond.(*ssa.BinOp)
+				if !ok || !sameValue(stripConv(bo.X), stripConv(cv.X), 0) {
+					continue
+				}
+				k, isc := constOf(bo.Y)
+				if !isc {
+					continue
+				}
+				switch {
+				case bo.Op == token.LSS && !ce.True && k >= min: // !(x < k) => x >= k
+					lo = true
+				case bo.Op == token.GEQ && ce.True && k >= min:
+					lo = true
+				case bo.Op == token.GTR && !ce.True && k <= max: // !(x > k) => x <= k
+					hi = true
+				case bo.Op == token.LEQ && ce.True && k <= max:
+					hi = true
+				case bo.Op == token.LSS && ce.True && k-1 <= max:
+					hi = true
+				case bo.Op == token.GTR && ce.True && k+1 >= min:
+					lo = true
+				}
+			}
+			// Clamp(x, a, b) with constant bounds inside the target range
+			if call, ok := stripConv(cv.X).(*ssa.Call); ok && objName(calleeObj(call)) == "chess.Clamp" && len(call.Call.Args) == 3 {
+				a, okA := constOf(call.Call.Args[1])
+				b, okB := constOf(call.Call.Args[2])
+				if okA && okB && a >= min && b <= max && a <= b {
+					lo, hi = true, true
+				}
+			}
+			if lo && hi {
+				c.Ok(rule, key, cv.Pos(), "externally supplied number is bounded on both sides within %s before the conversion", dst.Name())
+			} else {
+				c.Fail(rule, key, cv.Pos(), "a number parsed from UCI text is converted to %s without a range check (lower bound: %v, upper bound: %v): e.g. `go depth 200` becomes depth -56 and the search answers bestmove 0000 from a non-final position", dst.Name(), lo, hi)
+			}
+		})
+	}
+	c.Floor(rule, n, 1, "narrowing conversions of parsed numbers in uci/main")
+}
+
+// C06.R5 (spsa configuration): tunables agree with the constants, stay in
+// their ranges, and keep divisors/shift counts/depth addends valid.
+func c06R5(c *Ctx, def *Prog, sp *Prog) {
+	const rule = "C06.R5"
+	c.Use(sp)
+	pkD, pkS := def.Pkg("params"), sp.Pkg("params")
+	if pkD == nil || pkS == nil {
+		c.Anchor(rule, "package params")
+		return
+	}
+	// constants of the default build
+	consts := map[string]int64{}
+	for _, n := range pkD.Types.Scope().Names() {
+		if k, ok := pkD.Types.Scope().Lookup(n).(*types.Const); ok && k.Exported() {
+			if v, ok := constant.Int64Val(constant.ToInt(k.Val())); ok {
+				consts[n] = v
+			}
+		}
+	}
+	// variables and their defaults in the spsa build
+	info := pkS.TypesInfo
+	vars := map[string]int64{}
+	for _, n := range pkS.Types.Scope().Names() {
+		if v, ok := pkS.Types.Scope().Lookup(n).(*types.Var); ok && v.Exported() {
+			if e, _ := sp.pkgVarInit("params." + n); e != nil {
+				if k, ok := constInt(info, e); ok {
+					vars[n] = k
+				}
+			}
+		}
+	}
+	for _, n := range sortedKeys(consts) {
+		v, ok := vars[n]
+		c.Check(ok && v == consts[n], rule, "param:"+n+"#default", token.NoPos, "constant %s = %d has an spsa variable with the same default (%d, present: %v)", n, consts[n], v, ok)
+	}
+	for _, n := range sortedKeys(vars) {
+		if _, ok := consts[n]; !ok {
+			c.Fail(rule, "param:"+n+"#default", token.NoPos, "spsa variable %s has no constant in the default build", n)
+		}
+	}
+	// tunables table: {&Var, "name", min, max}
+	tun, _ := sp.pkgVarInit("params.tunables")
+	type rng struct{ min, max int64 }
+	ranges := map[string]rng{}
+	if cl, ok := tun.(*ast.CompositeLit); ok {
+		for _, el := range cl.Elts {
+			row, ok := el.(*ast.CompositeLit)
+			if !ok || len(row.Elts) != 4 {
+				c.Undec(rule, "tunables#row", el.Pos(), "unrecognised tunables row")
+				continue
+			}
+			var vname string
+			if u, ok := row.Elts[0].(*ast.UnaryExpr); ok && u.Op == token.AND {
+				if id, ok := u.X.(*ast.Ident); ok {
+					vname = id.Name
+				}
+			}
+			sname := ""
+			if tv, ok := info.Types[row.Elts[1]]; ok && tv.Value != nil {
+				sname = constant.StringVal(tv.Value)
+			}
+			mn, ok1 := constInt(info, row.Elts[2])
+			mx, ok2 := constInt(info, row.Elts[3])
+			if vname == "" || !ok1 || !ok2 {
+				c.Undec(rule, "tunables#row", el.Pos(), "unrecognised tunables row")
+				continue
+			}
+			c.Check(vname == sname, rule, "tunable:"+vname+"#name", el.Pos(), "tunable row for variable %s is published under the name %q", vname, sname)
+			d := vars[vname]
+			c.Check(mn <= d && d <= mx, rule, "tunable:"+vname+"#range", el.Pos(), "default %d of %s lies in [%d,%d]", d, vname, mn, mx)
+			ranges[vname] = rng{mn, mx}
+		}
+	} else {
+		c.Undec(rule, "tunables", token.NoPos, "params.tunables is not a composite literal")
+	}
+	for _, n := range sortedKeys(vars) {
+		if _, ok := ranges[n]; !ok {
+			c.Fail(rule, "tunable:"+n+"#listed", token.NoPos, "spsa variable %s is not listed in tunables: it cannot be set, or is set without bounds", n)
+		}
+	}
+	c.Floor(rule+".params", len(ranges), 13, "tunable parameters")
+	// uses as divisor / shift count / depth addend in the spsa program
+	nUse := 0
+	for _, fn := range sp.OwnFuncs() {
+		allInstrs(fn, func(in ssa.Instruction) {
+			bo, ok := in.(*ssa.BinOp)
+			if !ok {
+				return
+			}
+			paramOf := func(v ssa.Value) string {
+				l, ok := stripConv(v).(*ssa.UnOp)
+				if !ok || l.Op != token.MUL {
+					return ""
+				}
+				g, ok := l.X.(*ssa.Global)
+				if !ok || g.Pkg == nil || relPkg(g.Pkg.Pkg.Path()) != "params" {
+					return ""
+				}
+				return g.Name()
+			}
+			switch bo.Op {
+			case token.QUO, token.REM:
+				if n := paramOf(bo.Y); n != "" {
+					nUse++
+					r := ranges[n]
+					c.Check(r.min > 0, rule, fnName(fn)+"#divisor:"+n, bo.Pos(), "%s is used as a divisor; its tunable minimum %d must be > 0", n, r.min)
+				}
+			case token.SHL, token.SHR:
+				if n := paramOf(bo.Y); n != "" {
+					nUse++
+					r := ranges[n]
+					width := int64(types.SizesFor("gc", "amd64").Sizeof(bo.X.Type())) * 8
+					signed := false
+					if b, ok := bo.X.Type().Underlying().(*types.Basic); ok && b.Info()&types.IsUnsigned == 0 {
+						signed = true
+					}
+					lim := width
+					if signed && bo.Op == token.SHL {
+						lim = width - 1 // 1<<15 in an int16 is negative
+					}
+					c.Check(r.min >= 0 && r.max < lim, rule, fnName(fn)+"#shift:"+n, bo.Pos(), "%s is used as a shift count of a %d-bit value; its range [%d,%d] must stay below %d", n, width, r.min, r.max, lim)
+				}
+			}
+		})
+	}
+	c.Floor(rule+".uses", nUse, 3, "divisor/shift uses of tunables")
 }
 
 // C06.R2: in Search.Go the call to iterativeDeepen is dominated by clearing of
@@ -182,5 +536,40 @@ func init() {
 		Mutant{Name: "C06.R2-refresh-conditional", Prop: "C06", File: "search/search.go",
 			Old: "\ts.refresh()\n\tdefer func() {", New: "\tif s.aborted {\n\t\ts.refresh()\n\t}\n\tdefer func() {",
 			Expect: "C06.R2/search.(*Search).Go#ms.Clear()"},
+	)
+}
+
+func init() {
+	addMutants(
+		Mutant{Name: "C06.R3-fallback-only-noisy-moves", Prop: "C06", File: "search/search.go",
+			Old: "\t\t\t\t\tmovegen.GenNoisy(s.ms, b)\n\t\t\t\t\tmovegen.GenNotNoisy(s.ms, b)\n\t\t\t\t\tmoves := s.ms.Frame()\n", New: "\t\t\t\t\tmovegen.GenNoisy(s.ms, b)\n\t\t\t\t\tmoves := s.ms.Frame()\n",
+			Expect: "C06.R3/iterativeDeepen#fallback-generates-all"},
+		Mutant{Name: "C06.R3-fallback-adopts-before-filter", Prop: "C06", File: "search/search.go", Quick: true,
+			Old: "\t\t\t\t\t\tr := b.MakeMove(pseudo.Move)\n\t\t\t\t\t\tif !b.InCheck(b.STM.Flip()) { // legal\n\t\t\t\t\t\t\tmove = pseudo.Move\n", New: "\t\t\t\t\t\tmove = pseudo.Move\n\t\t\t\t\t\tr := b.MakeMove(pseudo.Move)\n\t\t\t\t\t\tif !b.InCheck(b.STM.Flip()) { // legal\n",
+			Expect: "C06.R3/iterativeDeepen#fallback-legal"},
+		Mutant{Name: "C06.R3-fallback-overrides-completed-iteration", Prop: "C06", File: "search/search.go",
+			Old: "\t\t\t\tif move == 0 {\n\t\t\t\t\ts.ms.Push()", New: "\t\t\t\tif move == 0 || idD < 2 {\n\t\t\t\t\ts.ms.Push()",
+			Expect: "C06.R3/iterativeDeepen#fallback-only-without-result"},
+		Mutant{Name: "C06.R4-F3-reverted-depth-unclamped", Prop: "C06", File: "uci/uci.go", Quick: true,
+			Old: "depth := Depth(Clamp(parseInt(args[i+1]), 1, MaxPlies))", New: "depth := Depth(parseInt(args[i+1]))",
+			Expect: "C06.R4/uci.(*Driver).handleGo#narrowing"},
+		Mutant{Name: "C06.R4-clamp-wider-than-type", Prop: "C06", File: "uci/uci.go",
+			Old: "depth := Depth(Clamp(parseInt(args[i+1]), 1, MaxPlies))", New: "depth := Depth(Clamp(parseInt(args[i+1]), 1, 4*MaxPlies))",
+			Expect: "C06.R4/uci.(*Driver).handleGo#narrowing"},
+		Mutant{Name: "C06.R4-perft-depth-unchecked", Prop: "C06", File: "uci/uci.go",
+			Old: "\tif depth < 0 || depth > 30 {\n\t\tfmt.Fprintln(d.err, \"unsupported depth\")\n\t\treturn\n\t}\n", New: "\tif depth < 0 {\n\t\tfmt.Fprintln(d.err, \"unsupported depth\")\n\t\treturn\n\t}\n",
+			Expect: "C06.R4/uci.(*Driver).handlePerft#narrowing"},
+		Mutant{Tier: "thorough", Name: "C06.R5-divisor-minimum-zero", Prop: "C06", File: "params/spsa.go",
+			Old: "{&NMPDiffFactor, \"NMPDiffFactor\", 30, 70},", New: "{&NMPDiffFactor, \"NMPDiffFactor\", 0, 70},",
+			Expect: "C06.R5/"},
+		Mutant{Tier: "thorough", Name: "C06.R5-shift-count-too-large", Prop: "C06", File: "params/spsa.go",
+			Old: "{&HistAdjRange, \"HistAdjRange\", 4, 10},", New: "{&HistAdjRange, \"HistAdjRange\", 4, 16},",
+			Expect: "C06.R5/heur.(*MoveRanker).FailHigh#shift:HistAdjRange"},
+		Mutant{Tier: "thorough", Name: "C06.R5-default-drifted", Prop: "C06", File: "params/spsa.go",
+			Old: "\tWindowSize       = 44\n", New: "\tWindowSize       = 45\n",
+			Expect: "C06.R5/param:WindowSize#default"},
+		Mutant{Tier: "thorough", Name: "C06.R5-row-published-under-sibling-name", Prop: "C06", File: "params/spsa.go",
+			Old: "{&HistAdjReduction, \"HistAdjReduction\", 4, 10},", New: "{&HistAdjRange, \"HistAdjReduction\", 4, 10},",
+			Expect: "C06.R5/tunable:"},
 	)
 }
